@@ -11,7 +11,7 @@ from env.choice_rng import ChoiceRNG
 from env.flows import LatticeFlow
 from env.targets import Monitor, box_logprior
 
-A_POINTS = [0.0, -3.0, -1e3, -1e7, -1e9]
+A_POINTS = [0.0, -3.0, -1e3, -1e7, -1e9, -math.inf]  # the last point has zero likelihood (hard support cut)
 
 
 def pop_menu(N):
@@ -21,10 +21,14 @@ def pop_menu(N):
         "peaked": [0] + [2] * (N - 1),
         "ext7": [0] + [3] * (N - 1),
         "ext9": [0] + [4] * (N - 1),
+        # zero-likelihood particle (not last), only ever offered as an *initial* population: no kernel
+        # that leaves its target invariant moves a particle to a zero-density point
+        "dead": ([0, 5, 1] + [0] * N)[:N] if N > 2 else [5, 0],
     }
 
 
 MENU_ORDER = ["flat", "mild", "peaked", "ext7", "ext9"]
+INIT_ONLY = ["dead"]
 
 
 def like_fn(x):
@@ -53,7 +57,7 @@ def run_execution(ctx, cfg):
                        logq=[-math.log(K)] * K, ctx=ctx, xp_name="numpy")
     pops = []  # population name after each kernel invocation
 
-    init = ctx.choose(names, label="init-pop", key=("init",))
+    init = ctx.choose(names + [n for n in INIT_ONLY if cfg.get("init_dead", True)], label="init-pop", key=("init",))
     orig_draw = flow.sample_and_log_prob
 
     def forced_draw(n, xp=None):
